@@ -127,6 +127,7 @@ def rand_cfg(rng: random.Random, gen: ModelGen, ent, multiclient: Optional[bool]
     base = rng.choice(['Model', 'M' + str(rng.randrange(100)), ident(rng, 'camel')])
     enc = {
         'encapsulee': info['fqn'],
+        'encapsulee_form': rng.choice(['ids', 'ids', 'ids', 'dot', 'colons', 'list']),
         'filename': rng.choice(['', 'dir/', '/abs/path/', './a/../']) + base + rng.choice(
             ['.dzn', '.dzn', '.json', '']),
         'suffix': rng.choice(['Shell', 'AdvShell', '_adv', 'X1']),
@@ -172,7 +173,7 @@ def gen_shell_case(rng: random.Random, want_multiclient: Optional[bool] = None,
                    small: bool = False, hostile_text: bool = False, mc_decoys: str = 'random',
                    mc_position: Optional[str] = None, mc_shape: Optional[int] = None,
                    name_families: Optional[float] = None, accept=None,
-                   ref_externs: Optional[float] = None):
+                   ref_externs: Optional[float] = None, twins: bool = False):
     """(gen, entry, cfg encoding, info): one model, one encapsulee, one valid configuration."""
     wmc = rng.random() < 0.4 if want_multiclient is None else want_multiclient
     for _attempt in range(400):
@@ -210,6 +211,9 @@ def gen_shell_case(rng: random.Random, want_multiclient: Optional[bool] = None,
                                   M.Port(pname, ref, 'provides'))
         for _ in range(gen._rint(o.n_systems)):
             gen.add_component('system')
+        if rng.random() < 0.3:
+            # imports, file names, element classes the parser does not know, non-dict elements
+            gen.add_noise()
         if not gen.respell_all():
             continue
         ents = gen.components
@@ -218,6 +222,9 @@ def gen_shell_case(rng: random.Random, want_multiclient: Optional[bool] = None,
         if not ents:
             continue
         ent = rng.choice(ents)
+        if twins:
+            if isinstance(ent[1], M.System) or not gen.add_twins(ent) or not gen.respell_all():
+                continue
         if accept is not None and not accept(comp_info(gen, ent)):
             continue
         enc = rand_cfg(rng, gen, ent, multiclient=wmc, hostile_text=hostile_text)
